@@ -522,10 +522,15 @@ def file_mutations(data, quick, is_text=False):
         # in the library (token label 32, serial 16, ...) must not trust the stored length
         off = 8
         recs = []
+        fields = []      # offsets of the 8-byte fields of every record (type, kind, length / count / ulong value): boolean values are one byte long, so the
+                         # fields of the records behind the first boolean are NOT 8-aligned and the aligned sweep above never hits them exactly
         try:
             while off + 16 <= n:
                 t, k = struct.unpack(">QQ", data[off:off + 16])
                 v0 = off + 16
+                fields += [("type", off, t), ("kind", off + 8, t)]
+                if k in (2, 3, 4, 5) and v0 + 8 <= n:
+                    fields.append(({2: "ulong", 3: "len", 4: "maplen", 5: "count"}[k], v0, t))
                 if k == 1:
                     off = v0 + 1
                 elif k == 2:
@@ -544,6 +549,17 @@ def file_mutations(data, quick, is_text=False):
                     break
         except struct.error:
             pass
+        seen_kind = set()
+        for what, foff, t in fields:
+            if foff % 8 == 0 and what not in ("count", "maplen"):
+                continue                      # aligned fields are covered by the sweep above
+            if quick and (what, t) in seen_kind:
+                continue
+            seen_kind.add((what, t))
+            cur = struct.unpack(">Q", data[foff:foff + 8])[0]
+            for v in (0, 1, cur + 1, max(cur - 1, 0), 6, 1 << 31, 1 << 60, (1 << 61) + 1, 1 << 63, (1 << 64) - 1, n, n + 1):
+                if v != cur:
+                    muts.append(("field@%d=%s-of-0x%x:=%s" % (foff, what, t, v if v < 4096 else hex(v)), data[:foff] + struct.pack(">Q", v & ((1 << 64) - 1)) + data[foff + 8:]))
         for t, v0, ln in recs:
             for L in sorted({0, 1, 15, 16, 17, 31, 32, 33, 64, 255, 256, 4097} | ({70000} if not quick else set())):
                 if L != ln:
@@ -560,7 +576,7 @@ def conf_mutations():
         out.append(("dup-line-%d" % i, "\n".join(lines[:i + 1] + lines[i:]) + "\n"))
         key = lines[i].split("=")[0].strip()
         for vn, v in (("empty", ""), ("long", "x" * 5000), ("nonnumeric", "abc"), ("dash", "-"), ("commas", ",,"), ("negative", "-1"), ("huge", "99999999999999999999"), ("spaces", "   "), ("nul", "a\x00b"),
-                      ("minus-list", "-CKM_AES_ECB,,-"), ("unknown-mech", "CKM_NOPE"), ("db", "db"), ("true", "true"), ("unicode", "\xff\xfe")):
+                      ("minus-list", "-CKM_AES_ECB,,-"), ("unknown-mech", "CKM_NOPE"), ("repeated-mech", "CKM_SHA256,CKM_RSA_PKCS,CKM_AES_CBC,CKM_SHA256"), ("repeated-mech-negative", "-CKM_SHA256,CKM_RSA_PKCS,CKM_SHA256"), ("db", "db"), ("true", "true"), ("unicode", "\xff\xfe")):
             out.append(("%s=%s" % (key, vn), "\n".join(lines[:i] + ["%s = %s" % (key, v)] + lines[i + 1:]) + "\n"))
     out += [("empty-file", ""), ("no-newline", base.strip()), ("only-equals", "=\n==\n = \n"), ("unknown-key", base + "foo.bar = 1\n"), ("binary", bytes(range(256)).decode("latin1")),
             ("long-line", "directories.tokendir = " + "a/" * 3000 + "\n" + base), ("comment-only", "# x\n"), ("key-no-value", "directories.tokendir\n" + base), ("crlf", base.replace("\n", "\r\n"))]
@@ -610,6 +626,13 @@ def _task_files(task):
                     slots = px.GetSlotList(1, n + 2).get("slots", [])
                     for sl in slots:
                         ti = px.GetTokenInfo(sl)
+                        # the two-call convention with EXACTLY the reported count (the list buffer ends at a guard page)
+                        nm = px.GetMechanismList(sl, "q")
+                        if nm["rv"] == 0 and nm.get("n", 0) < 4096:
+                            rr = px.GetMechanismList(sl, nm["n"])
+                            asan += rr.get("asan", 0)
+                            if rr.get("wmax", 0) > 8 * nm["n"]:
+                                out["viol"].setdefault(sig + "|mechanism-list-written-beyond-announced-count", {"signature": sig + "|mechanism-list-written-beyond-announced-count", "detail": {"mutation": mname, "file": rel, "announced": nm["n"], "wmax": rr.get("wmax")}, "history": [], "action": None, "task": [target, mi, mi + 1, quick]})
                         o = px.OpenSession(sl)
                         if o["rv"] != 0:
                             continue
